@@ -1,4 +1,5 @@
 import RemocModel.Rtc.Lin
+import RemocModel.Rtc.MutOrder
 import RemocModel.Rtc.Example
 set_option linter.unusedSimpArgs false
 set_option linter.unusedVariables false
@@ -24,16 +25,14 @@ are lists of atomic segments.
 * `linearizable` — the executions taken at their end events form a sequential execution of `o`
   (every finished one returning exactly what the sequential object returns in the state it is
   applied to, cancelled ones contributing the segments they ran), every completed call is in it
-  with its own arguments and result, and the witness respects real time
-  (`lin_respects_real_time`: invocation < linearization point < response).
+  with its own arguments and result, the witness respects real time
+  (`lin_respects_real_time`: invocation < linearization point < response) and its `&mut self` /
+  `self` entries are ordered as their requests were dequeued (`mut_order_as_dequeued`).
 
 Partial, spelled out:
 * the served object's methods are *modelled* as lists of atomic segments of a deterministic
   object (DESIGN.md, C12 "Partial"); `&self` methods are assumed not to modify the object
   (`Obj.ReadOnly`, interior mutability is outside the model);
-* "`&mut` calls ordered as dequeued" is covered through `mut_exclusive` plus the structure of the
-  serve loop (a `&mut` request is never spawned: `SInv.spk`), it is not stated as a separate
-  theorem about the order of `deq` events;
 * remote function calls (`rfn`) are instances of the same model (`RFn` = shared/spawn with
   non-cancellable methods, `RFnMut` = by-mutable-reference/inline, `RFnOnce` = by-value) and are
   exercised by the harness only through the trait machinery they share (`rch::oneshot` reply
@@ -223,6 +222,18 @@ theorem lin_respects_real_time (cfg : Cfg) (s : State o) (h : Reachable cfg s)
     rw [h2] at this
     exact Nat.ne_of_lt this
 
+/-- **`&mut` calls are ordered as dequeued.**  The ids of the `&mut self` / `self` entries of the
+sequential witness, in witness order, form a subsequence of the ids in dequeue order — and no
+request is dequeued twice, so the two orders agree on every pair of mutable calls. -/
+theorem mut_order_as_dequeued (cfg : Cfg) (s : State o) (h : Reachable cfg s) :
+    List.Sublist (mutLin o s.tr) (deqOrder s.tr) ∧ (deqOrder s.tr).Nodup := by
+  constructor
+  · exact List.Sublist.trans (List.sublist_append_left _ _) (minv_of_reachable cfg s h)
+  · rw [List.nodup_iff_count]
+    intro c
+    rw [deqOrder_count]
+    exact ((inv_of_reachable cfg s h).cn.post c).1
+
 /-! ### non-vacuity: concrete runs that meet the hypotheses -/
 
 /-- two concurrent clients (one local, one transported) on `ServerSharedMut::serve(true)`: both
@@ -232,7 +243,9 @@ example : ((run (cfgSM .pinned) (init ctr) run1).calls 0).cl = .value 0
     ∧ ctrVal (run (cfgSM .pinned) (init ctr) run1) = 10
     ∧ linOf ctr (run (cfgSM .pinned) (init ctr) run1).tr = [⟨0, 0, 0, 2, some 0⟩, ⟨1, 1, 5, 2, some 10⟩]
     ∧ segCount 1 0 (run (cfgSM .pinned) (init ctr) run1).tr = 1
-    ∧ segCount 1 1 (run (cfgSM .pinned) (init ctr) run1).tr = 1 := by
+    ∧ segCount 1 1 (run (cfgSM .pinned) (init ctr) run1).tr = 1
+    ∧ mutLin ctr (run (cfgSM .pinned) (init ctr) run1).tr = [1]
+    ∧ deqOrder (run (cfgSM .pinned) (init ctr) run1).tr = [0, 1] := by
   decide
 
 /-- a state in which a `&mut self` method executes (hypotheses of `mut_exclusive`): the spawned
